@@ -7,7 +7,7 @@ import ScriggoV.Model.ExprPP
 * `strip <expr>`  → `ok <expr>`        (`strip`)
 * `parse <tokens>`→ `ok <expr>` / `err syntax`   (`parse`)
 
-`<expr>` is prefix notation with fixed arity: `I n` identifier `x<n>`, `L n` int literal,
+`<expr>` is prefix notation with fixed arity: `I n` identifier `x<n>`, `L <Kind> n` literal,
 `U <Op> e`, `B <Op> l r` (`<Op>` = the Go constant without `Operator`), `C <0|1> <k> f a1 … ak`
 call (variadic flag, number of arguments), `X e i` index, `S e n` selector `.x<n>`, `P e`
 one more pair of parentheses. `<tokens>`: `i<n>`, `n<n>`, `( ) [ ] . , ...` and the operator
@@ -24,13 +24,19 @@ def natOf (s : String) : Option Nat :=
   | some n => if toString n == s then some n else none
   | none => none
 
+def litOfName (s : String) : Option LiteralType := LiteralType.all.find? (fun k => k.name == s)
+def dirOfName (s : String) : Option ChanDirection := ChanDirection.all.find? (fun k => k.name == s)
+
 mutual
 def decode : Nat → List String → Option (Expr × List String)
   | 0, _ => none
   | fuel + 1, ws =>
     match ws with
     | "I" :: n :: rest => (natOf n).map fun n => (.ident n, rest)
-    | "L" :: n :: rest => (natOf n).map fun n => (.lit n, rest)
+    | "L" :: k :: n :: rest => do
+      let k ← litOfName k
+      let n ← natOf n
+      pure (.lit k n, rest)
     | "U" :: o :: rest => do
       let u ← unOfName o
       let (e, rest) ← decode fuel rest
@@ -50,11 +56,42 @@ def decode : Nat → List String → Option (Expr × List String)
       let (e, rest) ← decode fuel rest
       let (i, rest) ← decode fuel rest
       pure (.index e i, rest)
+    | "Z" :: v :: rest => do
+      let v ← (if v == "1" then some true else if v == "0" then some false else none)
+      let (e, rest) ← decode fuel rest
+      let (lo, rest) ← decodeOpt fuel rest
+      let (hi, rest) ← decodeOpt fuel rest
+      let (mx, rest) ← decodeOpt fuel rest
+      pure (.slicing e lo hi mx v, rest)
     | "S" :: rest => do
       let (e, rest) ← decode fuel rest
       match rest with
       | n :: rest => (natOf n).map fun n => (.selector e n, rest)
       | [] => none
+    | "T" :: rest => do
+      let (e, rest) ← decode fuel rest
+      let (t, rest) ← decode fuel rest
+      pure (.typeAssert e t, rest)
+    | "D" :: rest => do
+      let (l, rest) ← decode fuel rest
+      let (r, rest) ← decode fuel rest
+      pure (.dflt l r, rest)
+    | "TS" :: rest => do
+      let (t, rest) ← decode fuel rest
+      pure (.sliceT t, rest)
+    | "TA" :: rest => do
+      let (len, rest) ← decodeOpt fuel rest
+      let (t, rest) ← decode fuel rest
+      pure (.arrayT len t, rest)
+    | "TM" :: rest => do
+      let (k, rest) ← decode fuel rest
+      let (v, rest) ← decode fuel rest
+      pure (.mapT k v, rest)
+    | "TC" :: d :: rest => do
+      let d ← dirOfName d
+      let (t, rest) ← decode fuel rest
+      pure (.chanT d t, rest)
+    | "TI" :: rest => some (.iface, rest)
     | "P" :: rest => do
       let (e, rest) ← decode fuel rest
       pure (.paren e, rest)
@@ -66,6 +103,15 @@ def decodeN : Nat → Nat → List String → Option (List Expr × List String)
     let (a, rest) ← decode fuel ws
     let (as, rest) ← decodeN fuel k rest
     pure (a :: as, rest)
+def decodeOpt : Nat → List String → Option (Option Expr × List String)
+  | 0, _ => none
+  | fuel + 1, ws =>
+    match ws with
+    | "O0" :: rest => some (none, rest)
+    | "O1" :: rest => do
+      let (e, rest) ← decode fuel rest
+      pure (some e, rest)
+    | _ => none
 end
 
 def decodeAll (ws : List String) : Option Expr :=
@@ -76,36 +122,57 @@ def decodeAll (ws : List String) : Option Expr :=
 mutual
 def encode : Expr → List String
   | .ident n => ["I", toString n]
-  | .lit n => ["L", toString n]
+  | .lit k n => ["L", k.name, toString n]
   | .unary u e => "U" :: u.toOp.name :: encode e
   | .binary b l r => "B" :: b.toOp.name :: (encode l ++ encode r)
   | .call f args v => "C" :: (if v then "1" else "0") :: toString args.length :: (encode f ++ encodeArgs args)
   | .index e i => "X" :: (encode e ++ encode i)
+  | .slicing e lo hi mx v => "Z" :: (if v then "1" else "0") :: (encode e ++ encodeOpt lo ++ encodeOpt hi ++ encodeOpt mx)
   | .selector e n => "S" :: (encode e ++ [toString n])
+  | .typeAssert e t => "T" :: (encode e ++ encode t)
+  | .dflt l r => "D" :: (encode l ++ encode r)
+  | .sliceT t => "TS" :: encode t
+  | .arrayT len t => "TA" :: (encodeOpt len ++ encode t)
+  | .mapT k v => "TM" :: (encode k ++ encode v)
+  | .chanT d t => "TC" :: d.name :: encode t
+  | .iface => ["TI"]
   | .paren e => "P" :: encode e
 def encodeArgs : List Expr → List String
   | [] => []
   | a :: as => encode a ++ encodeArgs as
+def encodeOpt : Option Expr → List String
+  | none => ["O0"]
+  | some e => "O1" :: encode e
 end
+
+def litLetter : LiteralType → String
+  | .StringLiteral => "s" | .RuneLiteral => "r" | .IntLiteral => "n" | .FloatLiteral => "f" | .ImaginaryLiteral => "m"
 
 def tokWord : Token → String
   | .ident n => "i" ++ toString n
-  | .int n => "n" ++ toString n
+  | .lit k n => litLetter k ++ toString n
   | .op o => o.text
   | .lparen => "(" | .rparen => ")" | .lbrack => "[" | .rbrack => "]"
-  | .period => "." | .comma => "," | .ellipsis => "..."
+  | .period => "." | .comma => "," | .ellipsis => "..." | .colon => ":"
+  | .lbrace => "{" | .rbrace => "}"
+  | .kwMap => "map" | .kwChan => "chan" | .kwInterface => "interface" | .kwDefault => "default"
 
 def wordTok (w : String) : Option Token :=
   match w with
   | "(" => some .lparen | ")" => some .rparen | "[" => some .lbrack | "]" => some .rbrack
-  | "." => some .period | "," => some .comma | "..." => some .ellipsis
+  | "." => some .period | "," => some .comma | "..." => some .ellipsis | ":" => some .colon
+  | "{" => some .lbrace | "}" => some .rbrace
+  | "map" => some .kwMap | "chan" => some .kwChan | "interface" => some .kwInterface
+  | "default" => some .kwDefault
   | _ =>
     match OpTok.all.find? (fun o => o.text == w) with
     | some o => some (.op o)
     | none =>
-      if w.startsWith "i" then (natOf (w.drop 1).toString).map Token.ident
-      else if w.startsWith "n" then (natOf (w.drop 1).toString).map Token.int
-      else none
+      let rest := (w.drop 1).toString
+      if w.startsWith "i" then (natOf rest).map Token.ident
+      else match LiteralType.all.find? (fun k => w.startsWith (litLetter k)) with
+        | some k => (natOf rest).map (Token.lit k)
+        | none => none
 
 def okWords (ws : List String) : String := "ok " ++ " ".intercalate ws
 
